@@ -126,3 +126,12 @@ def register(check):
           floors={"quick": {"shape16_runs": 300, "shape16_non_streaming_checked": 150, "shape16_two_requests_cases": 40, "appsend16_second_sends": 20, "rawsrv_conversations": 60},
                   "thorough": {"shape16_runs": 9000, "shape16_two_requests_cases": 1200, "appsend16_second_sends": 600}},
           assumptions=COMMON_ASSUMPTIONS + ["'success' for a non-server-streaming caller is judged as the generated stubs see it: Invoke returning nil, or a response message followed by end-of-stream"])
+    check("C10",
+          level="exploration",
+          rule="four in-flight RPCs (bidi, server-stream with error status + details, unary, client-stream; trailers; 16 kB..100 kB messages) started one per step; graceful shutdown initiated at every step boundary 0..6; 0..4 RPCs of rotating shapes attempted afterwards; "
+               "x {forward InitiateShutdown, reverse GracefulStop with 0/1/3 tunnels} x {gate-driven random frame interleaving, 1 ms carrier latency, plain} x Stop-after-GracefulStop or peer hang-up; "
+               "non-trivial = at least one late or in-flight RPC judged; distinct = distinct (tunnels, step, late, mode, cfg, op/outcome shape)",
+          nontrivial="shutdown_runs",
+          floors={"quick": {"shutdown_runs": 300, "shutdown_late_rpcs": 500, "shutdown_inflight_checked": 500, "gracefulstop_observed_waiting": 100, "gate_releases": 5000},
+                  "thorough": {"shutdown_runs": 8000, "shutdown_late_rpcs": 14000, "shutdown_inflight_checked": 14000}},
+          assumptions=COMMON_ASSUMPTIONS + ["'in flight' = handler already invoked when the shutdown call was issued; 'afterwards' = started after the shutdown call returned (forward) / was observed blocked (reverse)"])
